@@ -20,13 +20,14 @@ QUICK_RUNS = 6000
 BATCH = 200
 SWEEP_BATCH = 400
 SWEEP_EXHAUSTIVE_NOTE = ("single-fault sweep: every cell (columns 0-7) of every row of the 4 base CIDs and every cell of the "
-                         "base data tables is replaced, one at a time, by each member of the hostile pool; exhaustive for "
-                         "that sub-space")
+                         "base data tables is replaced, one at a time, by each member of the hostile pool; and the "
+                         "peer-generated ODS and XLSX base data files get every single bit flipped and are truncated at "
+                         "every offset; exhaustive for that sub-space")
 HOSTILE = ['"abc', "'", '"""', "(", ")", "[", "]", "1...", "...", "…", "--1", "0x", "0xZZ", "99999999999999999999999999",
            "-99999999999999999999", "NaN", "Infinity", "-inf", "\x00", "ü", "€", "", " ", "class", "None", "lambda", "*",
            "+", "?", "(?P<", "[a-", "\\", "a{2,1}", "%", "1e400", "1,2", "x" * 70, "\n", "\t", "\\x", '"\\x"', "'\\N{'",
            "1:2:3", "tab", "any", "none", "0", "-1", "65536", "1.5", ",", ".", ";", "#", "a b", "f,", "é=1", "count",
-           "DD.MM", "%%", "{", "2:1", "x", "X"]
+           "DD.MM", "%%", "{", "2:1", "x", "X", "is_valid", "is valid", "format", "Header", "encoding", "__dict__", "_header"]
 RULE_TEXT = (
     "fault enumeration: sweep of (base CID or data table, row, column, hostile value) single-cell replacements (see "
     "sweep_note) plus seeded scenarios with two hostile cells at once or one container fault (truncate / bitflip / "
@@ -146,6 +147,15 @@ def _sweep_cases():
                 for column in range(len(row)):
                     for value_index in range(len(HOSTILE)):
                         cases.append((base_name, "data", row_index, column, value_index))
+        # every single bit flip and every truncation of the small peer-generated data archives
+        for base_name in ("ods", "excel"):
+            fs = simfs.SimFS()
+            _store_data(fs, base_name, BASES[base_name]["data"], "probe")
+            size = len(fs.files["probe"])
+            for offset in range(size):
+                for bit in range(8):
+                    cases.append((base_name, "flip", offset, bit, size))
+                cases.append((base_name, "cut", offset, 0, size))
         _SWEEP = cases
     return _SWEEP
 
@@ -156,6 +166,12 @@ def sweep_size(tier):
 
 def sweep_slice(tier, start, count):
     for base_name, target, row_index, column, value_index in _sweep_cases()[start:start + count]:
+        if target in ("flip", "cut"):
+            yield {"property": ID, "sweep": True, "base": base_name, "io": {"regime": "whole"}, "cells": [],
+                   "cid_storage": "rows",
+                   "container": {"target": "data-file", "kind": "bitflip" if target == "flip" else "truncate",
+                                 "offset": row_index, "bit": column, "at": row_index / float(value_index)}}
+            continue
         yield {"property": ID, "sweep": True, "base": base_name, "io": {"regime": "whole"},
                "cells": [{"target": target, "row": row_index, "column": column, "value": HOSTILE[value_index]}],
                "container": None, "cid_storage": "rows"}
@@ -200,7 +216,7 @@ def _damage(data, container):
     kind = container["kind"]
     if not data:
         return data
-    position = min(len(data) - 1, int(container["at"] * len(data)))
+    position = min(len(data) - 1, container["offset"] if "offset" in container else int(container["at"] * len(data)))
     if kind == "truncate":
         return data[:position]
     if kind == "bitflip":
@@ -380,9 +396,11 @@ def execute(scenario):
                 elif status == "system-exit" and code != 2:
                     leaks.append(("main", RuntimeError("SystemExit(%r)" % (code,))))
     result.nontrivial = True
-    if scenario.get("sweep"):
+    if scenario.get("sweep") and scenario["cells"]:
         cell = scenario["cells"][0]
         result.schedule_sig = [base_name, cell["target"], cell["row"], cell["column"], cell["value"]]
+    elif scenario.get("sweep"):
+        result.schedule_sig = [base_name, container["kind"], container["offset"], container["bit"]]
     else:
         result.schedule_sig = [base_name, storage, [[cell["target"], cell["row"], cell["column"], cell["value"]] for cell in scenario["cells"]],
                                None if not container else [container["target"], container.get("fixture"), container["kind"],
